@@ -86,3 +86,44 @@ Definition f_unsat (n:nat) (f:form) : bool := negb (f_sat n f).
 Definition mk_cond (cons ante:form) : cond := {| ckey := 0; ccons := cons; cante := ante |}.
 (* BeliefBase: only the conditionals dictionary matters to the translated code *)
 Record pybase := { bb_conditionals : dict Z cond }.
+
+(* ---- sets of integers (frozenset / set): duplicate-free lists; iteration order = list order ---- *)
+Definition zmem (x:Z) (l:list Z) : bool := existsb (Z.eqb x) l.
+Fixpoint zset_of (l:list Z) : list Z :=
+  match l with [] => [] | x::r => let s := zset_of r in if zmem x s then s else x :: s end.
+Definition zset_add (s:list Z) (x:Z) : list Z := if zmem x s then s else s ++ [x].
+Definition zsubset (a b:list Z) : bool := forallb (fun x => zmem x b) a.
+Definition zset_eqb (a b:list Z) : bool := zsubset a b && zsubset b a.
+Definition zset_inter (a b:list Z) : list Z := filter (fun x => zmem x b) a.
+Definition zset_diff (a b:list Z) : list Z := filter (fun x => negb (zmem x b)) a.
+Definition zset_union (a b:list Z) : list Z := a ++ zset_diff b a.
+(* sets of sets *)
+Definition zsetmem (x:list Z) (l:list (list Z)) : bool := existsb (zset_eqb x) l.
+Fixpoint zsetset_of (l:list (list Z)) : list (list Z) :=
+  match l with [] => [] | x::r => let s := zsetset_of r in if zsetmem x s then s else x :: s end.
+Definition zsetset_inter (a b:list (list Z)) : list (list Z) := filter (fun x => zsetmem x b) a.
+Fixpoint zlist_eqb (a b:list Z) : bool :=
+  match a, b with [], [] => true | x::a', y::b' => (x =? y)%Z && zlist_eqb a' b' | _, _ => false end.
+
+(* ---- CNFs and partial MaxSAT, modelled by their contract (property C15) ---------------------------------
+   A CNF produced by TseitinTransformation is modelled by its projection on the atoms of the signature: a list of
+   clauses, each a predicate on worlds, whose conjunction is the meaning of the formula it was made from.
+   minimal_correction_subsets is modelled by what C15 proves of the enumeration loop for any conforming MaxSAT
+   oracle: the inclusion-minimal sets of conditionals (those of nf_cnf_dict not listed in `ignore`) violated by
+   an assignment that satisfies the hard clauses. *)
+Definition sclause := world -> bool.
+Definition scnf := list sclause.
+Definition scnf_holds (c:scnf) (w:world) : bool := forallb (fun cl => cl w) c.
+Record wcnf := { w_hard : list sclause; w_soft : list sclause }.
+Definition wcnf_new : wcnf := {| w_hard := []; w_soft := [] |}.
+Definition w_append (x:wcnf) (c:sclause) : wcnf := {| w_hard := w_hard x ++ [c]; w_soft := w_soft x |}.
+Definition w_append_soft (x:wcnf) (c:sclause) : wcnf := {| w_hard := w_hard x; w_soft := w_soft x ++ [c] |}.
+Definition cnf_of_query (q:cond) : scnf * scnf := ([ver q], [fal q]).
+Definition violated_bv (nf:dict Z scnf) (keys:list Z) (w:world) : bv :=
+  map (fun k => match zdict_find nf k with Some c => negb (scnf_holds c w) | None => false end) keys.
+Fixpoint keys_of_bv (keys:list Z) (x:bv) : list Z :=
+  match keys, x with k::ks, b::bs => if b then k :: keys_of_bv ks bs else keys_of_bv ks bs | _, _ => [] end.
+Definition mcs (n:nat) (nf:dict Z scnf) (x:wcnf) (ignore:list Z) : list (list Z) :=
+  let keys := filter (fun k => negb (zmem k ignore)) (dict_keys nf) in
+  map (keys_of_bv keys)
+      (minimal (dedup (map (violated_bv nf keys) (filter (scnf_holds (w_hard x)) (worlds n))))).
